@@ -69,8 +69,9 @@ type Explorer struct {
 	// returns true (used for the coarse-grained "sequential orderings" reference:
 	// switches only where a thread ends, blocks or spawns).
 	SwitchAt func(p vsched.PointRec) bool
-	// Shard/NShards: this process explores only the level-1 subtrees whose index
-	// is congruent to Shard modulo NShards (the root execution belongs to shard 0).
+	// Shard/NShards: the tree is split below its second level. Every process runs the root and all level-1
+	// executions (they are needed to enumerate the level-2 subtrees) but reports the root only in shard 0 and the
+	// level-1 execution k only in shard k mod NShards; the level-2 subtree j below k belongs to shard (k*7919+j) mod NShards.
 	Shard, NShards int
 	// SinglePass explores everything (no preemption bound, no iteration).
 	SinglePass bool
@@ -79,6 +80,8 @@ type Explorer struct {
 type frame struct {
 	prefix []int
 	expN   []int
+	level  int // 0 = the root execution, 1 = its alternatives, ...
+	k      int // index among the alternatives of the root (level 1 only)
 }
 
 // Explore runs iterative bounding 0..Bound. Each bound b explores exactly the
@@ -142,7 +145,16 @@ func (e *Explorer) exploreBound(b int, st *ExploreStats) (int, bool) {
 		total := cost(res.Points, len(res.Points))
 		isRoot := root
 		root = false
-		if (total == b || b <= 0) && !(isRoot && e.NShards > 1 && e.Shard != 0) {
+		mine := true
+		if e.NShards > 1 {
+			switch f.level {
+			case 0:
+				mine = e.Shard == 0
+			case 1:
+				mine = f.k%e.NShards == e.Shard
+			}
+		}
+		if (total == b || b <= 0) && mine {
 			st.Executions++
 			count++
 			st.Points += len(res.Points)
@@ -181,9 +193,18 @@ func (e *Explorer) exploreBound(b int, st *ExploreStats) (int, bool) {
 				kids = append(kids, frame{prefix: np, expN: expN[:i+1]})
 			}
 		}
+		_ = isRoot
 		for k, fr := range kids {
-			if isRoot && e.NShards > 1 && k%e.NShards != e.Shard {
-				continue
+			fr.level = f.level + 1
+			if e.NShards > 1 {
+				switch fr.level {
+				case 1:
+					fr.k = k
+				case 2:
+					if (f.k*7919+k)%e.NShards != e.Shard {
+						continue
+					}
+				}
 			}
 			stack = append(stack, fr)
 		}
